@@ -164,50 +164,6 @@ theorem fail_frame_rwith_precheck {s : LState} {u fuel : Nat} {new : Option Nat}
 
 /-! ### the roll-back of `replace` -/
 
-theorem foldl_clearParent_lookup : ∀ (ks : List Nat) (s : LState) (k : Str),
-    (ks.foldl LState.clearParent s).lookup k = s.lookup k := by
-  intro ks; induction ks with
-  | nil => intro s k; rfl
-  | cons c r ih => intro s k; simp only [List.foldl_cons]; rw [ih]; rfl
-
-theorem foldl_clearParent_size : ∀ (ks : List Nat) (s : LState), (ks.foldl LState.clearParent s).size = s.size := by
-  intro ks; induction ks with
-  | nil => intro s; rfl
-  | cons c r ih => intro s; simp only [List.foldl_cons]; rw [ih]; rfl
-
-theorem foldl_clearParent_obj : ∀ (ks : List Nat) (s : LState) (x : Nat),
-    (ks.foldl LState.clearParent s).obj x = if x ∈ ks then clearP (s.obj x) else s.obj x := by
-  intro ks; induction ks with
-  | nil => intro s x; simp
-  | cons c r ih =>
-    intro s x
-    simp only [List.foldl_cons]
-    rw [ih, clearParent_obj']
-    by_cases hxc : x = c
-    · subst hxc; simp
-    · by_cases hxr : x ∈ r <;> simp [hxc, hxr]
-
-theorem foldl_clearParent_idOf (ks : List Nat) (s : LState) (x : Nat) :
-    (ks.foldl LState.clearParent s).idOf x = s.idOf x := by
-  unfold LState.idOf; rw [foldl_clearParent_obj]; split <;> simp
-
-theorem detachKids_onlySelf (rec : LState → Nat → LState × Option Bool) : ∀ (ks : List Nat) (s : LState),
-    detachKids rec true s ks = (ks.foldl LState.clearParent s, true) := by
-  intro ks; induction ks with
-  | nil => intro s; rfl
-  | cons c r ih => intro s; simp only [detachKids, if_true, List.foldl_cons]; exact ih _
-
-/-- `detach_self()` of an attached root, in closed form -/
-theorem detach_self_eq {s : LState} {u fuel : Nat} (ha : Att s u) (hr : s.parent u = none) :
-    detachGo (fuel + 1) true s u =
-      (((s.obj u).kidList.foldl LState.clearParent s).unregister (s.idOf u), some true) := by
-  unfold detachGo
-  have hd : s.detached u = false := (detached_eq_false_iff _ _).mpr ha
-  have hroot : s.isAttachedRoot u = true := by simp [LState.isAttachedRoot, hr, hd]
-  simp only [hd, Bool.false_eq_true, if_false, hroot, Bool.not_true]
-  rw [detachKids_onlySelf]
-  simp only [foldl_clearParent_idOf]
-
 /-- two records that differ at most in the parent slots and agree there are equal -/
 theorem eq_of_sameButParent {a b : LObj} (h : SameButParent a b) (h1 : a.pid = b.pid) (h2 : a.pfield = b.pfield)
     (h3 : a.pindex = b.pindex) : a = b := by
@@ -300,7 +256,7 @@ theorem replace_rollback_frame {s s3 : LState} {u : Nat} (hI : Inv Hc s) (ha : A
     rw [hkp] at he
     have : o e.1 = s.obj e.1 := by show (if e.1 < s.size then _ else _) = _; simp [hkid_lt e he]
     rw [this]
-    obtain ⟨_, b, c, d⟩ := hI.down u ha e he
+    obtain ⟨_, b, c, d⟩ := hI.down' u ha e he
     exact ⟨by rw [b]; show _ = some (s3.idOf u); rw [hid3 u hu], c, d⟩
   have hr_kid : ∀ x, x ∈ (s.obj u).kidList → (reparent u t (s3.obj u).kidsPos).obj x = s.obj x := by
     intro x hx
